@@ -8,6 +8,9 @@
 //   (i)  model tie: for SymEigsSolver / SymEigsShiftSolver every one of those runs is also written as a `herm` request (protocol of
 //        Driver/C05.lean, answered by the Lean solver model), and for the shift solvers the sequence of set_shift / perform_op
 //        events on the operator is written as an `opshift` request (Model/OpShift.lean).
+//        General family: for GenEigsSolver / GenEigsRealShiftSolver (explicit-loop operators LoopMatOp / ShiftLoopOp, ncv <= 16) the
+//        same fresh / reused / second-solver runs are written as `gen` requests (protocol of Driver/C02.lean, answered by
+//        GenSolver.genKern, the record `gen_respects` / `c06_gen_*` are proved about).
 #include "solver_common.h"
 #include <Eigen/LU>
 #include <Eigen/Sparse>
@@ -257,7 +260,7 @@ static void experiment_body(Family& F, Rng& r, Ctx& c) {
     Rec ra; ra.req = F.header;
     Outcome oa = observe(F, ha, a, c, "fresh solver", tied ? &ra : nullptr, drift);
     if (drift) return;
-    if (tied) out.corr(ra.req, ra.resp.substr(3));
+    if (tied) { out.corr(ra.req, ra.resp.substr(3)); if (F.gen) out.count("tied_gen_fresh"); }
     out.count(oa.init_threw ? "obs_init_rejected" : oa.threw ? "obs_compute_threw" : "obs_returned");
     // (b) reused solver
     Handle hb = mk(); Rec rb; rb.req = F.header;
@@ -266,14 +269,14 @@ static void experiment_body(Family& F, Rng& r, Ctx& c) {
     c.hist += "|observed:" + args_str(a);
     Outcome ob = observe(F, hb, a, c, "reused solver", tied ? &rb : nullptr, drift);
     if (drift) return;
-    if (tied && rb.ok) { out.corr(rb.req, rb.resp.substr(3)); out.count("tied_reused_history"); }
+    if (tied && rb.ok) { out.corr(rb.req, rb.resp.substr(3)); out.count("tied_reused_history"); if (F.gen) out.count("tied_gen_reused_history"); }
     out.count("oracle_fresh_vs_reused");
     if (oa.text != ob.text) { out.fail("fresh-vs-reused", F.cls + ": init(v); compute(args) on a solver reused after the history differs bitwise from the same pair on a fresh solver: fresh `" + oa.text.substr(0, 160) + "` reused `" + ob.text.substr(0, 160) + "`", replay_json(c, F, "reused")); return; }
     // (c) a second solver over the same operator object, while the first is alive
     Handle hc = mk(); Rec rc_; rc_.req = F.header;
     Outcome oc = observe(F, hc, a, c, "second solver sharing the operator", tied ? &rc_ : nullptr, drift);
     if (drift) return;
-    if (tied) out.corr(rc_.req, rc_.resp.substr(3));
+    if (tied) { out.corr(rc_.req, rc_.resp.substr(3)); if (F.gen) out.count("tied_gen_second"); }
     out.count("oracle_second_solver");
     if (oa.text != oc.text) { out.fail("second-solver", F.cls + ": a second solver constructed over the same operator object gives a bitwise different result: fresh `" + oa.text.substr(0, 160) + "` second `" + oc.text.substr(0, 160) + "`", replay_json(c, F, "second")); return; }
     // (d) the reused solver again, with calls on the second solver between its init() and compute()
@@ -306,6 +309,16 @@ template <class S> static void tie(Handle& h, S* s, int n, int nev) {
     // compute's own segment is "ret=.. info=.. niter=.. nmatop=..": stat_seg is reused for it with the return value prepended by the caller
 }
 
+// general family: complex eigenvalues / eigenvectors in the format of Driver/C02.lean
+template <class S> static void tie_gen(Handle& h, S* s, int n, int nev) {
+    h.fachash = [s]() { return SpectraVerifAccess::fachash(SpectraVerifAccess::fac(*s)); };
+    h.ev_seg = [s]() { auto e = s->eigenvalues(); std::string t = "k=" + str((long) e.size()); for (long i = 0; i < e.size(); i++) t += " e:" + str(dbits(e[i].real())) + " e:" + str(dbits(e[i].imag())); return t; };
+    h.vec_seg = [s, n, nev]() { auto X = s->eigenvectors(nev); std::string t = "rows=" + str(n) + " cols=" + str((long) X.cols()); for (long j = 0; j < X.cols(); j++) for (long i = 0; i < X.rows(); i++) t += " " + str(dbits(X(i, j).real() + 0.0)) + " " + str(dbits(X(i, j).imag() + 0.0)); return t; };
+}
+static std::string gen_header(int variant, int n, int nev, int ncv, double sigma, const Mat& M) {
+    const double eps = Spectra::TypeTraits<double>::epsilon(); const double eps23 = std::pow(eps, double(2) / 3); const double near0 = Spectra::TypeTraits<double>::min() * double(10);
+    return "gen " + str(variant) + " " + str(n) + " " + str(nev) + " " + str(ncv) + " " + str(dbits(eps23)) + " " + str(dbits(near0)) + " " + str(dbits(eps)) + " " + str(dbits(sigma)) + " " + str(dbits(0.0)) + mat_bits(M);
+}
 static std::string herm_header(int variant, int n, int nev, int ncv, double sigma, const Mat& M) {
     const double eps = Spectra::TypeTraits<double>::epsilon(); const double eps23 = std::pow(eps, double(2) / 3); const double near0 = Spectra::TypeTraits<double>::min() * double(10);
     return "herm " + str(variant) + " " + str(n) + " " + str(nev) + " " + str(ncv) + " " + str(dbits(eps23)) + " " + str(dbits(near0)) + " " + str(dbits(eps)) + " " + str(dbits(sigma)) + mat_bits(M);
@@ -343,13 +356,14 @@ static void run_case(int cs, const Args& args, Out& out) {
             h.init = [s, n](const Vec* v) { if (v) { CVec z = v->cast<CD>(); for (int i = 0; i < n; i++) z[i] += CD(0, 0.5 * (*v)[(i + 1) % n]); s->init(z.data()); } else s->init(); }; return h; };
         F.probe = [&]() { LogGuard g(&log); CVec x = probe_vec(n, 0).cast<CD>() + CD(0, 1) * probe_vec(n, 1).cast<CD>(), y(n); op.perform_op(x.data(), y.data()); return matbits(y); };
         experiment(F, r, c); break; }
-    case 3: { Mat A = gen_general(r, n, kind % 7, scale); LoopMatOp op(A, log); F.cls = "GenEigsSolver";
-        F.make = [&]() { using S = Spectra::GenEigsSolver<LoopMatOp>; auto sp = std::make_shared<S>(op, nev, ncv); Handle h = wrap<S, CD>(sp, n, nev, false); real_init(h, sp.get()); return h; };
+    case 3: { Mat A = gen_general(r, n, kind % 7, scale); LoopMatOp op(A, log); F.cls = "GenEigsSolver"; if (ncv <= 16) F.header = gen_header(0, n, nev, ncv, 0.0, A);
+        F.make = [&]() { using S = Spectra::GenEigsSolver<LoopMatOp>; auto sp = std::make_shared<S>(op, nev, ncv); Handle h = wrap<S, CD>(sp, n, nev, false); real_init(h, sp.get()); tie_gen(h, sp.get(), n, nev); return h; };
         F.probe = [&]() { LogGuard g(&log); Vec x = probe_vec(n, 0), y(n); op.perform_op(x.data(), y.data()); return matbits(y); };
         experiment(F, r, c); break; }
     case 4: { Mat A = gen_general(r, n, (kind % 7 == 5 || kind % 7 == 3) ? 0 : kind % 7, scale); double sigma = 1.7 * scale * (1 + r.unit()); st.cls = 0; F.st = &st; ShiftLoopOp op(A, log, st); F.cls = "GenEigsRealShiftSolver";
+        op.install(sigma, 0.0); if (ncv <= 16) F.header = gen_header(1, n, nev, ncv, sigma, op.R);     // the matrix the constructor's set_shift(sigma) installs
         F.shift_header = "opshift 0 " + str(dbits(sigma)) + " 0"; op.install(-sigma, 0.0); st.sr = -sigma;
-        F.make = [&]() { using S = Spectra::GenEigsRealShiftSolver<ShiftLoopOp>; auto sp = std::make_shared<S>(op, nev, ncv, sigma); Handle h = wrap<S, CD>(sp, n, nev, false); real_init(h, sp.get()); return h; };
+        F.make = [&]() { using S = Spectra::GenEigsRealShiftSolver<ShiftLoopOp>; auto sp = std::make_shared<S>(op, nev, ncv, sigma); Handle h = wrap<S, CD>(sp, n, nev, false); real_init(h, sp.get()); tie_gen(h, sp.get(), n, nev); return h; };
         F.probe = [&]() { LogGuard g(&log); op.saving = true; Vec x = probe_vec(n, 0), y(n); op.perform_op(x.data(), y.data()); op.saving = false; return matbits(y); };
         experiment(F, r, c); break; }
     case 5: { Mat A = gen_general(r, n, (kind % 7 == 5 || kind % 7 == 3) ? 0 : kind % 7, scale); double sr = 0.9 * scale * r.sym(), si = 0.4 * scale * (0.2 + r.unit()); st.cls = 1; F.st = &st; ShiftLoopOp op(A, log, st); F.cls = "GenEigsComplexShiftSolver";
